@@ -56,6 +56,183 @@ def _():
     m = re.search(r"pub fn scan\(&self\).*?assert!\(self\.seq\.len\(\) >= self\.k\);\s*assert!\(self\.seq\.len\(\) < 1 << (\d+)\);", t, re.S)
     return m.group(1) if m else None
 
+# ---------------------------------------------------------------- kmer.rs
+def _ksizes(t):
+    return {m.group(1): int(m.group(2)) for m in re.finditer(r"impl KmerSize for (K\d+) \{[^}]*?fn K\(\) -> usize \{\s*(\d+)\s*\}", t, re.S)}
+
+@item("shipped", "List (String × Nat × Nat × Bool)",
+      '[("Kmer64",128,64,false),("Kmer48",128,48,true),("Kmer40",128,40,true),("Kmer32",64,32,false),("Kmer30",64,30,true),("Kmer24",64,24,true),("Kmer20",64,20,true),("Kmer16",32,16,false),("Kmer15",32,15,true),("Kmer14",32,14,true),("Kmer12",32,12,true),("Kmer10",32,10,true),("Kmer8",16,8,false),("Kmer6",16,6,true),("Kmer5",16,5,true),("Kmer4",8,4,false),("Kmer3",8,3,true),("Kmer2",8,2,true),("K31",64,31,true)]',
+      "shipped k-mer types: (name, storage bits, K, is VarIntKmer); the 18 aliases of kmer.rs plus VarIntKmer<u64,K31>")
+def _():
+    t = src("kmer.rs")
+    ks = _ksizes(t)
+    out = []
+    for m in re.finditer(r"pub type (Kmer\d+) = (IntKmer|VarIntKmer)<(u\d+)(?:,\s*(K\d+))?>;", t):
+        name, kind, ty, ksz = m.groups()
+        w = INT_BITS[ty]
+        if kind == "IntKmer":
+            # K = size_of::<T>() * 4
+            if not re.search(r"fn _k\(\) -> usize \{\s*// 4 bases per byte\s*std::mem::size_of::<T>\(\) \* 4", t):
+                return None
+            out.append((name, w, w // 2, "false"))
+        else:
+            if ksz not in ks:
+                return None
+            out.append((name, w, ks[ksz], "true"))
+    if len(out) < 1 or "K31" not in ks:
+        return None
+    out.append(("K31", 64, ks["K31"], "true"))
+    return "[" + ",".join('("%s",%d,%d,%s)' % o for o in out) + "]"
+
+def _ladder(ty):
+    t = src("kmer.rs")
+    m = re.search(r"impl IntHelp for %s \{(.*?)\n\}\n" % ty, t, re.S)
+    if not m:
+        return None, None
+    body = m.group(1)
+    f = re.search(r"fn reverse_by_twos\(&self\) -> %s \{(.*?)\n        r\n" % ty, body, re.S)
+    if not f:
+        return None, None
+    layers = []
+    # ((X & MASK) << S) | ((X >> S) & MASK)
+    for st in re.finditer(r"\(\((\w+) & (0x[0-9A-Fa-f]+)%s\) << (\d+)\)\s*\|\s*\(\((\w+) >> (\d+)\) & (0x[0-9A-Fa-f]+)%s\)" % (ty, ty), f.group(1)):
+        x1, m1, s1, x2, s2, m2 = st.groups()
+        if x1 != x2:
+            return None, None
+        layers.append((int(m1, 16), int(s1), int(m2, 16), int(s2)))
+    lo = re.search(r"fn lower_of_two\(\) -> %s \{\s*(0x[0-9A-Fa-f]+)%s" % (ty, ty), body)
+    return layers, (int(lo.group(1), 16) if lo else None)
+
+for _ty in ("u8", "u16", "u32", "u64", "u128"):
+    _w = INT_BITS[_ty]
+    _pin_masks = {2: "3", 4: "0F", 8: "00FF", 16: "0000FFFF", 32: "00000000FFFFFFFF", 64: "0000000000000000FFFFFFFFFFFFFFFF"}
+    def _pinned_layers(w):
+        out = []
+        s = 2
+        while s < w:
+            unit = int(_pin_masks[s], 16)
+            mask = 0
+            for off in range(0, w, 2 * s):
+                mask |= unit << off
+            out.append("(%d,%d,%d,%d)" % (mask, s, mask, s))
+            s *= 2
+        return "[" + ",".join(out) + "]"
+    def _mk(ty=_ty, w=_w):
+        @item("rev%d" % w, "List (Nat × Nat × Nat × Nat)", _pinned_layers(w),
+              "reverse_by_twos for %s: per layer (mask of the left-shifted half, left shift, mask of the right-shifted half, right shift)" % ty)
+        def _():
+            layers, lo = _ladder(ty)
+            if not layers:
+                return None
+            return "[" + ",".join("(%d,%d,%d,%d)" % l for l in layers) + "]"
+        @item("lowerOfTwo%d" % w, "Nat", str(int("55" * (w // 8), 16)), "IntHelp::lower_of_two for %s" % ty)
+        def _():
+            layers, lo = _ladder(ty)
+            return None if lo is None else str(lo)
+    _mk()
+
+# ---------------------------------------------------------------- lib.rs tables
+def _match_table(fn_name, default_re, arm_re, conv):
+    """build a 256-entry table from the match arms of a small function in lib.rs"""
+    t = src("lib.rs")
+    m = re.search(r"pub fn %s\(c: u8\)[^{]*\{\s*match c \{(.*?)\n    \}\n\}" % fn_name, t, re.S)
+    if not m:
+        return None
+    body = m.group(1)
+    table = [None] * 256
+    default = None
+    for line in body.strip().split("\n"):
+        line = line.strip().rstrip(",")
+        if not line:
+            continue
+        lhs, _, rhs = line.partition("=>")
+        lhs = lhs.strip(); rhs = rhs.strip()
+        v = conv(rhs)
+        if v is None:
+            return None
+        if lhs == "_":
+            default = v
+            continue
+        for alt in lhs.split("|"):
+            alt = alt.strip()
+            mm = re.fullmatch(r"b'(.)'", alt)
+            nn = re.fullmatch(r"(\d+)u8", alt)
+            if mm:
+                table[ord(mm.group(1))] = v
+            elif nn:
+                table[int(nn.group(1))] = v
+            else:
+                return None
+    if default is None:
+        return None
+    return [default if x is None else x for x in table]
+
+def _conv_u8(rhs):
+    m = re.fullmatch(r"(\d+)u8", rhs)
+    if m: return int(m.group(1))
+    m = re.fullmatch(r"b'(.)'", rhs)
+    if m: return ord(m.group(1))
+    m = re.fullmatch(r"'(.)'", rhs)
+    if m: return ord(m.group(1))
+    return None
+
+def _conv_opt(rhs):
+    if rhs == "None": return 255
+    m = re.fullmatch(r"Some\((\d+)u8\)", rhs)
+    return int(m.group(1)) if m else None
+
+def _lean_list(xs):
+    return "[" + ",".join(str(x) for x in xs) + "]"
+
+_B2B = [0] * 256
+for _c, _v in ((65, 0), (97, 0), (67, 1), (99, 1), (71, 2), (103, 2), (84, 3), (116, 3)):
+    _B2B[_c] = _v
+@item("baseToBits", "List Nat", _lean_list(_B2B), "lib.rs base_to_bits as a 256-entry table")
+def _():
+    t = _match_table("base_to_bits", None, None, _conv_u8)
+    return None if t is None else _lean_list(t)
+
+_D2B = [255] * 256
+for _c, _v in ((65, 0), (97, 0), (67, 1), (99, 1), (71, 2), (103, 2), (84, 3), (116, 3)):
+    _D2B[_c] = _v
+@item("dnaOnlyBaseToBits", "List Nat", _lean_list(_D2B), "lib.rs dna_only_base_to_bits as a 256-entry table (255 = None)")
+def _():
+    t = _match_table("dna_only_base_to_bits", None, None, _conv_opt)
+    return None if t is None else _lean_list(t)
+
+_BTA = [88] * 256
+_BTA[0], _BTA[1], _BTA[2], _BTA[3] = 65, 67, 71, 84
+@item("bitsToAscii", "List Nat", _lean_list(_BTA), "lib.rs bits_to_ascii as a 256-entry table")
+def _():
+    t = _match_table("bits_to_ascii", None, None, _conv_u8)
+    return None if t is None else _lean_list(t)
+
+@item("bitsToBase", "List Nat", _lean_list(_BTA), "lib.rs bits_to_base (char code) as a 256-entry table")
+def _():
+    t = _match_table("bits_to_base", None, None, _conv_u8)
+    return None if t is None else _lean_list(t)
+
+_VALID = [1 if c in (65, 67, 71, 84, 97, 99, 103, 116) else 0 for c in range(256)]
+@item("isValidBase", "List Nat", _lean_list(_VALID), "lib.rs is_valid_base as a 256-entry 0/1 table")
+def _():
+    t = src("lib.rs")
+    m = re.search(r"pub fn is_valid_base\(c: u8\) -> bool \{\s*matches!\(c,([^)]*)\)", t)
+    if not m:
+        return None
+    tab = [0] * 256
+    for alt in m.group(1).split("|"):
+        mm = re.fullmatch(r"b'(.)'", alt.strip())
+        if not mm:
+            return None
+        tab[ord(mm.group(1))] = 1
+    return _lean_list(tab)
+
+@item("complementMask", "Nat", "3", "lib.rs complement: (!base) & 0x3")
+def _():
+    t = src("lib.rs")
+    m = re.search(r"pub fn complement\(base: u8\) -> u8 \{\s*\(!base\) & 0x([0-9a-fA-F]+)u8", t)
+    return str(int(m.group(1), 16)) if m else None
+
 def generate():
     lines = ["/-! GENERATED by tools/extract_consts.py from /repo/src — do not edit. -/", "namespace Gen", ""]
     fallbacks = []
